@@ -4,6 +4,7 @@
 package main
 
 import (
+	crand "crypto/rand"
 	"fmt"
 	"os"
 	"strconv"
@@ -36,10 +37,31 @@ func fail(format string, a ...interface{}) {
 	firstFailure.CompareAndSwap(nil, fmt.Sprintf(format, a...))
 }
 
+// unsyncReader replaces crypto/rand.Reader for the stress run. The runtime's own reader does an
+// atomic compare-and-swap on a package-level flag in every call; the race detector treats atomics
+// as synchronisation, so two goroutines that each draw a random number between two conflicting
+// accesses are ordered by it and the conflict goes unreported (the same masking effect a shared
+// atomic counter in the worker loop had). This reader has no state at all: the bytes are a mix of
+// the clock and the position, which is all a stress run needs.
+type unsyncReader struct{}
+
+func (unsyncReader) Read(b []byte) (int, error) {
+	z := uint64(time.Now().UnixNano())
+	for i := range b {
+		z += 0x9e3779b97f4a7c15
+		x := z
+		x = (x ^ (x >> 30)) * 0xbf58476d1ce4e5b9
+		x = (x ^ (x >> 27)) * 0x94d049bb133111eb
+		b[i] = byte(x >> 33)
+	}
+	return len(b), nil
+}
+
 func main() {
 	seed, _ := strconv.ParseUint(os.Args[1], 10, 64)
 	secs, _ := strconv.Atoi(os.Args[2])
 	g := &rng{s: seed}
+	crand.Reader = unsyncReader{} // before any goroutine starts
 
 	// shared values
 	charRecipes := []*spg.CharRecipe{
@@ -101,6 +123,7 @@ func main() {
 	deadline := time.Now().Add(time.Duration(secs) * time.Second)
 	var wg sync.WaitGroup
 	workers := 8 + g.intn(9)
+	start := make(chan struct{})
 	for w := 0; w < workers; w++ {
 		wg.Add(1)
 		lg := &rng{s: g.next()}
@@ -111,6 +134,38 @@ func main() {
 					fail("panic in worker: %v", r)
 				}
 			}()
+			// All workers start together and begin with a sweep over every kind of call, the rare
+			// paths (impossible recipes) first: at this point nothing orders one worker after
+			// another, so whatever the library initialises or records on first use — also at
+			// package level, where there is only one first use per process — is touched by
+			// several goroutines with no happens-before edge between them.
+			<-start
+			_ = emptyRecipe.Entropy()
+			_, _ = emptyRecipe.Generate()
+			_ = emptyRecipe.Alphabet()
+			_ = emptyRecipe.SuccessProbability()
+			_, _ = emptySepRecipe.Generate()
+			_ = emptySepRecipe.Entropy()
+			for i, r := range charRecipes {
+				if a := r.Alphabet(); a != alpha[i] {
+					fail("sweep: char recipe %d: Alphabet() %q vs %q", i, a, alpha[i])
+				}
+				if e := r.Entropy(); e != ent[i] {
+					fail("sweep: char recipe %d: Entropy() %v vs %v", i, e, ent[i])
+				}
+				_ = r.SuccessProbability()
+				if p, err := r.Generate(); err != nil || p.Entropy != ent[i] {
+					fail("sweep: char recipe %d: Generate: %v", i, err)
+				}
+			}
+			for i, r := range wlRecipes {
+				if e := r.Entropy(); e != wlEnt[i] {
+					fail("sweep: wl recipe %d: Entropy() %v vs %v", i, e, wlEnt[i])
+				}
+				if p, err := r.Generate(); err != nil || p.Entropy != wlEnt[i] {
+					fail("sweep: wl recipe %d: Generate: %v", i, err)
+				}
+			}
 			// NOTE: no shared atomic or lock inside the loop — the race detector treats those as
 			// synchronisation and they would order the workers' iterations, hiding races.
 			local := int64(0)
@@ -192,6 +247,7 @@ func main() {
 			}
 		}()
 	}
+	close(start)
 	wg.Wait()
 	if failures > 0 {
 		fmt.Printf("FAIL %d of %d concurrent results violate their recipe; first: %v\n", failures, calls, firstFailure.Load())
